@@ -456,9 +456,10 @@ def check_misc(case):
     return Outcome(True, ("bms-accepted" if sig is not None else "bms-refused",))
 
 
-from checks import c05_p2p  # noqa: E402
+from checks import c05_p2p, c05_psbt  # noqa: E402
 
 SUBCHECKS = [
+    SubCheck("psbt", c05_psbt.check_psbt, "PSBT v0/v2 with every optional field present/absent (falsy-but-present values forced): object -> bytes -> object equal, base64, to_dict/from_dict through JSON, lone input/output maps; the bytes re-assembled by an independent map splitter with shuffled keys / added unknown keys / duplicated keys / a final script beside signing fields: parse, re-serialize is a fixed point holding exactly the same multiset of (map, key, value) pairs; non-trivial: >=6 key-value pairs", c05_psbt.psbt_case, quick=900, thorough=12000),
     SubCheck("p2p", c05_p2p.check_p2p, "every p2p payload class and the Message envelope: valid objects (field-by-field generators) serialize, parse back equal (modulo the documented include_witness normalisation), frame into a Message and back; the serialization under truncation/extension/bit flips/count edits/splices is refused or re-serializes to exactly the consumed bytes; non-trivial: non-empty payload", lambda: c05_p2p.p2p_case(), quick=2500, thorough=40000),
     SubCheck("p2p_blocks", c05_p2p.check_p2p_slow, "BlockPayload over real mainnet blocks", lambda: c05_p2p.p2p_case(["BlockPayload"]), quick=16, thorough=200),
     SubCheck("prims", check_prim, "CompactSize / var_bytes: encode = model, decode inverse, stream position exact, non-minimal widths and truncations refused, MAX_SIZE cap", prim_case, quick=4000, thorough=40000),
